@@ -10,16 +10,19 @@ package climit
 // The released flag of a Token is private to this package: only Release
 // changes it.
 //@ stable Token.released
+//@ guarded Token.released, Token.cl by Token.mu
 
 //@ func (cl *ConcurrencyLimit) Acquire
 //@   trusted
 //@   modifies ghost_held
-//@   ensures fresh_token: r0 != nil && freshObj(r0) && !r0.released
+//@   ensures fresh_token: r0 != nil && freshObj(r0) && !r0.released && !held(r0.mu)
 //@   ensures held: ghost_held == old(ghost_held) + 1
 
 // Release is idempotent: the second call returns the token to nobody.
 //@ func (t *Token) Release
+//@   requires lock_free_on_entry: !held(t.mu)
 //@   trusted
+//@   lockcheck
 //@   modifies t.released, ghost_held
 //@   ensures released: t.released
 //@   ensures held: ghost_held == old(ghost_held) - ite(old(t.released), 0, 1)
